@@ -98,7 +98,7 @@ def run_in_child(fn, payload, timeout):
 class Farm:
     """jobs template processes; map(payloads) yields (index, record) as runs finish"""
 
-    def __init__(self, jobs, init_fn, run_fn, env=None):
+    def __init__(self, jobs, init_fn, run_fn, env=None, post_fn=None):
         self.jobs = jobs
         self.templates = []
         for j in range(jobs):
@@ -131,6 +131,13 @@ class Farm:
                             break
                         idx, payload, timeout = msg
                         rec = run_in_child(run_fn, payload, timeout)
+                        if post_fn is not None and isinstance(rec, dict) and not rec.get('harness_error'):
+                            # (executed in the template itself: a process that has imported everything and run nothing)
+                            try:
+                                rec = post_fn(rec)
+                            except BaseException as e:  # noqa: BLE001
+                                rec = {'harness_error': 'post_run_exception',
+                                       'detail': ''.join(traceback.format_exception(type(e), e, e.__traceback__))[-6000:]}
                         _send(r_w, ('result', (idx, rec)))
                 finally:
                     os._exit(0)
